@@ -30,6 +30,7 @@ import (
 
 	"github.com/sourcenetwork/defradb/client"
 	"github.com/sourcenetwork/defradb/event"
+	"github.com/sourcenetwork/defradb/internal/db"
 	"github.com/sourcenetwork/defradb/verifharness/core"
 )
 
@@ -45,6 +46,9 @@ type c05Params struct {
 	KRem   int    `json:"k_rem,omitempty"`
 	NRand  int    `json:"n_rand,omitempty"` // sampled: extra random k
 	Degen  string `json:"degen,omitempty"`  // kind "degenerate": which degenerate argument
+	// kind "calltxn": the degenerate call runs inside a transaction owned by the caller, which is committed afterwards
+	Sibling    bool `json:"sibling,omitempty"`    // the transaction also holds a call that succeeds (a create, before the failing call)
+	Concurrent bool `json:"concurrent,omitempty"` // DB.NewConcurrentTxn instead of DB.NewTxn
 }
 
 var c05Configs = []string{"plain", "indexed", "uniq", "branchable", "brindexed"}
@@ -1653,6 +1657,137 @@ func runC05Degenerate(ctx context.Context, c core.Case, r *core.Rec) {
 }
 
 // ---------------------------------------------------------------------------------------
+// caller-owned transaction: a call that fails for a LOGICAL reason (no injected fault) inside a
+// transaction the caller created, which the caller then commits. "A call that returns an error leaves
+// documents, commits, heads, index contents and schema exactly as before": after the commit the database
+// must be what the same transaction WITHOUT the failed call produces (reference execution on a second
+// node; with no other call in the transaction that is the state before). A commit that refuses (a
+// transaction poisoned by the failed call) is accepted, then nothing at all may have been persisted.
+
+type c05TxnExec struct {
+	Err, CommitErr error
+	Panic          string
+	Pre, Post      c05Snap
+	Events         []string
+	IndexBad       []string
+}
+
+func c05CallerTxnExec(ctx context.Context, p c05Params, docs []map[string]any, op *c05Op, dg *c05Degen, withCall bool) *c05TxnExec {
+	e := c05NewEnv(ctx, p, docs, op)
+	defer e.close()
+	x := &c05TxnExec{}
+	x.Pre = c05TakeSnap(e)
+	ev0 := e.rec.Len()
+	var txn client.Txn
+	var err error
+	if p.Concurrent {
+		txn, err = e.n.DB.NewConcurrentTxn(ctx, false)
+	} else {
+		txn, err = e.n.DB.NewTxn(ctx, false)
+	}
+	core.Must(err)
+	ctx0 := e.ctx
+	e.ctx = db.InitContext(ctx0, txn)
+	if p.Sibling {
+		core.Must(e.col.Create(e.ctx, e.newDoc(c05NewDocMap(20))))
+	}
+	if withCall {
+		x.Err, x.Panic = c05CallGuarded(func() error { return dg.Prepare(e)() })
+	}
+	e.ctx = ctx0
+	x.CommitErr = txn.Commit(ctx0)
+	txn.Discard(ctx0)
+	e.rec.Barrier()
+	x.Events = c05EventIDs(e.rec.Events()[ev0:])
+	x.Post = c05TakeSnap(e)
+	x.IndexBad = c05IndexVsScan(e)
+	return x
+}
+
+func c05NormDescriptions(raw map[string]string) map[string]string {
+	out := make(map[string]string, len(raw))
+	for k, v := range raw {
+		if strings.HasPrefix(k, "/db/system/collection/") {
+			v = strings.ReplaceAll(v, `"Sources":null`, `"Sources":[]`)
+		}
+		out[k] = v
+	}
+	return out
+}
+
+func runC05CallerTxn(ctx context.Context, c core.Case, r *core.Rec) {
+	var p c05Params
+	c.P(&p)
+	rng := rand.New(rand.NewPCG(c.Seed, 0xC05))
+	dg := c05FindDegen(p.Degen)
+	if dg == nil {
+		panic("unknown degenerate entry " + p.Degen)
+	}
+	docs := c05GenDocs(rng, p.NDocs)
+	op := &c05Op{Name: dg.Op, Setup: dg.Setup, Probes: []string{c05ProbeAux, c05ProbeExtra}}
+	if ce := c05FindOp(dg.Op); ce != nil && len(ce.Probes) > 0 {
+		op.Probes = ce.Probes
+	}
+	x := c05CallerTxnExec(ctx, p, docs, op, dg, true)
+	r.Count("caller_txn_executions", 1)
+	base := map[string]any{"op": dg.Op, "failing_call": dg.Name, "config": p.Config, "ndocs": p.NDocs, "docs": docs, "sibling_create_in_txn": p.Sibling,
+		"concurrent_txn": p.Concurrent, "error": fmt.Sprint(x.Err), "commit_error": fmt.Sprint(x.CommitErr), "events": x.Events}
+	if x.Panic != "" {
+		base["stack"] = x.Panic
+		r.Violate("panic/caller-txn/"+c05PanicFrame(x.Panic), fmt.Sprintf("%s with %q inside a caller-owned transaction (%s) panics: %s", dg.Op, dg.Name, p.Config, strings.SplitN(x.Panic, "\n", 2)[0]), base)
+		return
+	}
+	if x.Err == nil {
+		r.Count("caller_txn_call_succeeded", 1) // not a failing call on these contents: nothing to judge here
+		return
+	}
+	r.Count("caller_txn_failed_calls", 1)
+	r.Count("caller_txn:"+dg.Op, 1)
+	if p.Sibling {
+		r.Count("caller_txn_failed_call_beside_successful_call", 1)
+	}
+	r.Nontrivial(fmt.Sprintf("calltxn|%s|%s|%v|%v", dg.Name, p.Config, p.Sibling, x.CommitErr != nil))
+	sig := "caller-txn/effect-of-failed-call-persisted-by-commit/" + dg.Name
+	head := fmt.Sprintf("%s with %q (%s) returned an error (%v) inside a transaction owned by the caller; the caller committed the transaction (commit: %v)", dg.Op, dg.Name, p.Config, x.Err, x.CommitErr)
+	if x.CommitErr != nil || !p.Sibling {
+		// nothing else in the transaction (or nothing committed): everything exactly as before
+		if x.CommitErr != nil {
+			r.Count("caller_txn_commit_refused", 1)
+		}
+		// a collection description that was rewritten with the same content may encode an empty list
+		// where it held null before ("Sources"): the same schema, not a difference
+		x.Pre.Raw, x.Post.Raw = c05NormDescriptions(x.Pre.Raw), c05NormDescriptions(x.Post.Raw)
+		switch {
+		case !c05SameMap(x.Pre.Raw, x.Post.Raw):
+			base["raw_diff"] = c05DiffKeys(x.Pre.Raw, x.Post.Raw, 30)
+			r.Violate(sig, head+fmt.Sprintf(" and the store differs from the state before the transaction (%s)", c05DiffClass(x.Pre.Raw, x.Post.Raw)), base)
+		case x.Pre.Log != x.Post.Log:
+			base["logical_before"], base["logical_after"] = x.Pre.Log, x.Post.Log
+			r.Violate(sig, head+" and the API shows a different state than before the transaction ("+c05ChangedSections(x.Pre.Log, x.Post.Log)+")", base)
+		case len(x.Events) > 0:
+			r.Violate(sig, head+fmt.Sprintf(" and %d update event(s) were published", len(x.Events)), base)
+		}
+		return
+	}
+	// reference: the same transaction without the failed call
+	ref := c05CallerTxnExec(ctx, p, docs, op, dg, false)
+	if ref.CommitErr != nil {
+		panic(fmt.Sprintf("reference transaction does not commit: %v", ref.CommitErr))
+	}
+	switch {
+	case x.Post.LogCF != ref.Post.LogCF:
+		base["expected"], base["got"] = ref.Post.LogCF, x.Post.LogCF
+		r.Violate(sig, head+" and the state differs from what the same transaction without the failed call leaves ("+c05ChangedSections(ref.Post.LogCF, x.Post.LogCF)+")", base)
+	case strings.Join(x.Events, ",") != strings.Join(ref.Events, ","):
+		base["events_reference"] = ref.Events
+		r.Violate(sig, head+fmt.Sprintf(" and %d update events were published, the same transaction without the failed call publishes %d", len(x.Events), len(ref.Events)), base)
+	case len(x.IndexBad) > 0 && len(ref.IndexBad) == 0:
+		base["diffs"] = x.IndexBad
+		r.Violate(sig, head+" and an index-backed query disagrees with a scan: "+x.IndexBad[0], base)
+	}
+}
+
+// ---------------------------------------------------------------------------------------
 // case lists
 
 func c05Cases(seed uint64, tier string) []core.Case {
@@ -1686,6 +1821,20 @@ func c05Cases(seed uint64, tier string) []core.Case {
 			}
 			cs = append(cs, core.MkCase("degenerate/"+d.Name, 1, c05Params{Op: d.Op, Degen: d.Name, Config: cfg, NDocs: nd}))
 		}
+	}
+	// every degenerate call inside a caller-owned transaction that is committed afterwards: alone, and
+	// beside a call that succeeds
+	for _, d := range c05Degenerates {
+		cfg := "uniq"
+		if d.Configs != nil && !c05OpApplies(&c05Op{Configs: d.Configs}, cfg) {
+			cfg = d.Configs[0]
+		}
+		nd := 4
+		if d.MinDocs > nd {
+			nd = d.MinDocs
+		}
+		cs = append(cs, core.MkCase("calltxn/"+d.Name, 1, c05Params{Op: d.Op, Degen: d.Name, Config: cfg, NDocs: nd}))
+		cs = append(cs, core.MkCase("calltxn/"+d.Name, 1, c05Params{Op: d.Op, Degen: d.Name, Config: cfg, NDocs: nd, Sibling: true}))
 	}
 	rng := rand.New(rand.NewPCG(seed, 505))
 	if thorough {
@@ -1724,6 +1873,21 @@ func c05Cases(seed uint64, tier string) []core.Case {
 		n := d.MinDocs + rng.IntN(7-d.MinDocs)
 		cs = append(cs, core.MkCase("degenerate/"+d.Name, rng.Uint64(), c05Params{Op: d.Op, Degen: d.Name, Config: cfg, NDocs: n}))
 	}
+	// the same inside caller-owned transactions, on generated contents
+	nt := 60
+	if thorough {
+		nt = 600
+	}
+	rng2 := rand.New(rand.NewPCG(seed, 5050))
+	for i := 0; i < nt; i++ {
+		d := c05Degenerates[rng2.IntN(len(c05Degenerates))]
+		cfg := c05Configs[rng2.IntN(len(c05Configs))]
+		if d.Configs != nil {
+			cfg = d.Configs[rng2.IntN(len(d.Configs))]
+		}
+		n := d.MinDocs + rng2.IntN(7-d.MinDocs)
+		cs = append(cs, core.MkCase("calltxn/"+d.Name, rng2.Uint64(), c05Params{Op: d.Op, Degen: d.Name, Config: cfg, NDocs: n, Sibling: rng2.IntN(2) == 0, Concurrent: rng2.IntN(3) == 0}))
+	}
 	return cs
 }
 
@@ -1743,6 +1907,7 @@ func c05PickNDocs(rng *rand.Rand, o *c05Op, rep int) int {
 
 func c05Floors() []string {
 	fl := []string{"evaluations", "fault_reached", "outcome_error", "degenerate_executions", "degenerate_errors", "retries",
+		"caller_txn_executions", "caller_txn_failed_calls", "caller_txn_failed_call_beside_successful_call", "caller_txn:create", "caller_txn:update", "caller_txn:create_index_unique",
 		"fault:commit/other", "fault:get/data", "fault:set/data", "fault:set/heads", "fault:set/blocks", "fault:iter/data", "fault:next/data", "fault:del/data", "fault:get/system", "fault:set/system"}
 	for _, o := range c05Catalogue {
 		fl = append(fl, "entry_err:"+o.Name, "entry_commit_fault:"+o.Name)
@@ -1769,6 +1934,10 @@ func init() {
 			quietLogs()
 			if strings.HasPrefix(c.Kind, "degenerate/") {
 				runC05Degenerate(ctx, c, r)
+				return
+			}
+			if strings.HasPrefix(c.Kind, "calltxn/") {
+				runC05CallerTxn(ctx, c, r)
 				return
 			}
 			runC05Fault(ctx, c, r)
